@@ -353,6 +353,9 @@ def Holder.bindLabel (h : Holder) (id toSec toOff : Nat) : Holder × String :=
   | some le =>
     if toSec ≥ h.secs.length then (h, "InvalidSection")
     else if le.bound.isSome then (h, "LabelAlreadyBound")
+    -- validate before anything is modified: bind_label() either succeeds or changes nothing
+    else if le.fixups.any (fun f => f.reloc.isNone && f.sec == toSec &&
+        (encodeFixup f.a64b ((toOff : Int) - (f.off : Int) + f.rel) f.size).isNone) then (h, "InvalidDisplacement")
     else
       let h := { h with labels := updAt h.labels id fun l => { l with bound := some (toSec, toOff), fixups := [] } }
       let (h, n, _, err) := resolveFixups h toSec toOff le.fixups
